@@ -30,7 +30,7 @@ S = 64
 INVS = ["TypeOK", "Faithful", "JacCoords", "Recorded", "KeysDistinct", "NonEmptyEntries", "Memo",
         "NoJacStored", "NoDbNoRecord"]
 PROPS = ["KeysAppendOnly", "WriteOnce", "ConfigFixed", "ServedFromDb", "PreprocessIdempotent"]
-ALL_SPACES = ["finite", "equal", "halfinf", "inf", "int", "intnorm", "mixed3", "allint"]
+ALL_SPACES = ["finite", "equal", "halfinf", "inf", "int", "intnorm", "mixed3", "allint", "intneg"]
 MODULE = "ProblemEval"
 
 
@@ -83,9 +83,13 @@ class Logged:
         return self.fn(x)
 
 
-VARIANTS = [dict(jac=j, support_sparse=s, role2=r, grouped=g)
-            for j in ("dense", "sparse") for s in (False, True) for r in ("constraint", "observable")
-            for g in (False, True)]
+# binding-only dimensions (the specification's values do not depend on them): representation of the user's
+# Jacobian, support_sparse_jacobian, role of the second function, one vector variable vs scalar variables,
+# user derivatives vs finite differences (only on spaces without integer variable; compared with a tolerance)
+VARIANTS = [dict(jac=j, support_sparse=s, role2=r, grouped=g, diff=d)
+            for d in ("user", "finite_differences") for j in ("dense", "sparse") for s in (False, True)
+            for r in ("constraint", "observable") for g in (False, True)]
+FD_ATOL = 1e-4 * S  # forward differences with the default step 1e-7 on quadratics with |f''| <= 32
 
 
 class Harness:
@@ -118,7 +122,9 @@ class Harness:
         self.ds = ds
         self.logs = {f: {"f": [], "j": []} for f in fns}
         sparse = variant["jac"] == "sparse"
-        self.problem = problem = OptimizationProblem(ds)
+        self.fd = variant["diff"] != "user" and not self.int_cols
+        self.problem = problem = OptimizationProblem(
+            ds, differentiation_method=variant["diff"] if self.fd else "user")
         mdo = {}
         for f in fns:
             lg = self.logs[f]
@@ -218,7 +224,10 @@ def compare_step(ck: Check, h: Harness, state, got, ctx):
         s = {"clause": clause, "function": "linear" if f.startswith("l") else "quadratic", "kind": kind,
              "space": str(sp["id"]), "int_var": bool(h.int_cols), "normalize": bool(cfgd["normalize"]),
              "use_db": bool(cfgd["useDb"]), "store_jac": bool(cfgd["storeJac"]),
-             "round_ints": bool(cfgd["roundInts"]), "frac_int": bool(ctx["frac"]), "call": str(ret["call"][0])}
+             "round_ints": bool(cfgd["roundInts"]), "frac_int": bool(ctx["frac"]), "call": str(ret["call"][0]),
+             "neg_zero_key": neg_zero}
+        if h.fd:
+            s["diff"] = h.variant["diff"]
         s.update(kw)
         return s
 
@@ -228,14 +237,25 @@ def compare_step(ck: Check, h: Harness, state, got, ctx):
         d.update(kw)
         return d
 
-    def jac_diff(exp, act):
-        """Classification only: does the implementation differ from the specification only in the
-        columns of integer variables?"""
+    def jac_diff(exp, act, physical):
+        """Classification only (signature of D0101): the implementation differs from the specification
+        only in the columns of integer variables, and there its entries are whole numbers in the
+        caller's coordinates (a physical, recorded entry is first scaled by the width when integer
+        variables are normalised)."""
         if len(exp) != len(act) or any(len(a) != len(b) for a, b in zip(exp, act)):
             return False
         cols = {i for r, (a, b) in enumerate(zip(exp, act)) for i, (x, y) in enumerate(zip(a, b)) if x != y}
-        return bool(cols) and cols <= set(h.int_cols)
+        if not cols or not cols <= set(h.int_cols):
+            return False
+        for i in cols:
+            c = sp["comps"][i]
+            w = (c["ub"] - c["lb"]) / S if physical and cfgd["normalize"] and sp["intNorm"] else 1
+            if any(not float(row[i] * w / S).is_integer() for row in act):
+                return False
+        return True
 
+    # classification only: numpy's -0.0 among the implementation's keys
+    neg_zero = any(bool(np.any(np.signbit(k.wrapped_array) & (k.wrapped_array == 0))) for k in h.problem.database)
     # returned values / Jacobians
     for f in fns:
         exp = spec_vec(ret["outs"][f])
@@ -247,9 +267,9 @@ def compare_step(ck: Check, h: Harness, state, got, ctx):
         expj = spec_mat(ret["jacs"][f])
         if expj or f in got["jacs"]:
             actj = mat(got["jacs"][f]) if f in got["jacs"] else None
-            if actj != expj:
+            if not same_jac(h, expj, actj):
                 bad += ck.violation("JacCoords", sig("JacCoords", f, "jac", where="return",
-                                                     only_int_cols=actj is not None and jac_diff(expj, actj)),
+                                                     rounded_int_cols_only=actj is not None and jac_diff(expj, actj, False)),
                                     detail(function=f, spec=expj, impl=actj))
     # database: keys, order, names, values
     sdb = tlaval.seq(state["db"]) if state["db"] else []
@@ -269,10 +289,10 @@ def compare_step(ck: Check, h: Harness, state, got, ctx):
                                         detail(function=f, key=se["key"], spec=exp, impl=act))
                 expj = spec_mat(se["jacs"][f])
                 actj = ie["jacs"].get(f)
-                if (actj or []) != expj:
+                if not same_jac(h, expj, actj or []):
                     clause = "Recorded" if cfgd["storeJac"] else "NoJacStored"
                     bad += ck.violation(clause, sig(clause, f, "jac", where="db",
-                                                    only_int_cols=bool(actj) and jac_diff(expj, actj)),
+                                                    rounded_int_cols_only=bool(actj) and jac_diff(expj, actj, True)),
                                         detail(function=f, key=se["key"], spec=expj, impl=actj))
             extra = (set(ie["vals"]) | set(ie["jacs"])) - set(fns)
             if extra:
@@ -283,7 +303,20 @@ def compare_step(ck: Check, h: Harness, state, got, ctx):
         for kind in ("f", "j"):
             exp = [spec_vec(p) for p in state["orig"][f][kind]]
             act = [vec(p) for p in h.logs[f][kind]]
-            if f.startswith("l"):
+            if h.fd:
+                # approximated derivatives: the user's Jacobian is never called; every Jacobian the
+                # specification computes costs n or n + 1 evaluations of the user's function (probe points),
+                # a Jacobian served from the database costs none
+                if kind == "j":
+                    ok = not act
+                elif f.startswith("l"):
+                    ok = True
+                else:
+                    it = iter(act)
+                    nj = len(state["orig"][f]["j"])
+                    ok = all(any(a == e for a in it) for e in exp) and \
+                        len(exp) + h.n * nj <= len(act) <= len(exp) + (h.n + 1) * nj
+            elif f.startswith("l"):
                 # MDOLinearFunction has no user callable: the scaled twin may be evaluated instead of the
                 # original; only "never more than the specification allows" is demanded
                 it = iter(exp)
@@ -294,6 +327,13 @@ def compare_step(ck: Check, h: Harness, state, got, ctx):
                 bad += ck.violation("Memo", sig("Memo", f, "value" if kind == "f" else "jac", where="calls"),
                                     detail(function=f, what=kind, spec=exp, impl=act))
     return bad
+
+
+def same_jac(h, exp, act):
+    if not h.fd or not exp or not act:
+        return act == exp
+    a, e = np.array(act, dtype=float), np.array(exp, dtype=float)
+    return a.shape == e.shape and bool(np.all(np.abs(a - e) <= FD_ATOL))
 
 
 def replay(ck: Check, states, fns, lin_data, variant, label):
@@ -313,6 +353,8 @@ def replay(ck: Check, states, fns, lin_data, variant, label):
                      {"cfg": cfgd, "space": sp, "variant": variant, "traceback": traceback.format_exc(limit=8)})
         return
     ctx = {"calls": [], "frac": False}
+    if h.fd:
+        base_sig["diff"] = variant["diff"]
     for st in states[1:]:
         call = st["ret"]["call"]
         ctx["calls"].append(call)
@@ -347,7 +389,7 @@ def replay_many(ck: Check, fns, lin_data, jobs):
     import gemseo.core.mdo_functions.mdo_linear_function  # noqa: F401
     import scipy.sparse  # noqa: F401
 
-    nproc = max(1, min(8 if ck.thorough else 4, (os.cpu_count() or 2) // 2, len(jobs) // 50 + 1))
+    nproc = max(1, min(6 if ck.thorough else 4, (os.cpu_count() or 2) // 2, len(jobs) // 50 + 1))
     step = max(1, -(-len(jobs) // (nproc * 4)))
     chunks = [(i, min(i + step, len(jobs))) for i in range(0, len(jobs), step)]
     _JOB = (ck, fns, lin_data, jobs)
@@ -525,17 +567,31 @@ def vacuity(ck: Check):
 
 
 def run(ck: Check):
+    try:
+        _run(ck)
+    except BaseException:
+        import shutil
+
+        shutil.rmtree(ck.work, ignore_errors=True)  # main() only cleans up after a normal end
+        raise
+
+
+def _run(ck: Check):
     rng = random.Random(ck.seed)
     vacuity(ck)
     refutations(ck)
     if ck.thorough:
+        # all pairs of calls, 3 request points (+ the inert-coordinate request), every space, both pairs
         for fns in (("qs", "lv"), ("qv", "ls")):
             for sid in ALL_SPACES:
                 bfs_and_tour(ck, [sid], fns, 3, 3, rng, 2)
+        # all triples of calls, 2 request points, on the spaces where keys are shared / coordinates inert
+        for sid in ("int", "equal", "intneg"):
+            bfs_and_tour(ck, [sid], ("qs", "lv"), 2, 4, rng, 1)
         simulate(ck, ALL_SPACES, ("qs", "lv"), 3, 10, 1500, rng, 1)
         simulate(ck, ALL_SPACES, ("qv", "ls"), 3, 10, 1500, rng, 1)
     else:
-        bfs_and_tour(ck, ["equal", "halfinf", "int", "intnorm"], ("qs", "lv"), 2, 3, rng, 1)
+        bfs_and_tour(ck, ["equal", "halfinf", "int", "intneg"], ("qs", "lv"), 2, 3, rng, 1)
         simulate(ck, ALL_SPACES, ("qv", "ls"), 3, 8, 250, rng, 1)
     ck.exhaustive = True  # every transition of the bounded graph(s) was replayed on the implementation
     ck.assumptions += [
